@@ -1503,25 +1503,27 @@ void SPxMainSM<R>::AggregationPS::execute(VectorBase<R>& x, VectorBase<R>& y, Ve
    r[m_j] = 0.0;
 
    // basis:
-   // x_k (the remaining variable) may stay nonbasic only on a bound it also had before the aggregation; if its
-   // bounds were tightened to a fixing, the sign of its reduced cost decides which of the old bounds can be used
+   // x_k (the remaining variable) may stay nonbasic only on a bound it also had before the aggregation and only if
+   // the sign of its reduced cost fits to that bound (its bounds may have been tightened up to a fixing, in which
+   // case the reduced cost in the reduced LP can have either sign)
+   const typename SPxSolverBase<R>::VarStatus kStat = cStatus[active_idx];
    bool atOldLower = (m_oldlower > R(-infinity)) && EQ(x[active_idx], m_oldlower, this->feastol());
    bool atOldUpper = (m_oldupper < R(infinity)) && EQ(x[active_idx], m_oldupper, this->feastol());
-   bool fixedStaysLower = cStatus[active_idx] == SPxSolverBase<R>::FIXED && atOldLower
-                          && (r[active_idx] >= 0.0 || (atOldUpper && EQ(m_oldlower, m_oldupper, this->feastol())));
-   bool fixedStaysUpper = cStatus[active_idx] == SPxSolverBase<R>::FIXED && !fixedStaysLower && atOldUpper
-                          && r[active_idx] <= 0.0;
+   bool oldFixed = atOldLower && atOldUpper;
+   bool staysLower = (kStat == SPxSolverBase<R>::ON_LOWER || kStat == SPxSolverBase<R>::FIXED) && atOldLower
+                     && (oldFixed || r[active_idx] >= -this->feastol());
+   bool staysUpper = (kStat == SPxSolverBase<R>::ON_UPPER || kStat == SPxSolverBase<R>::FIXED) && !staysLower
+                     && atOldUpper && r[active_idx] <= this->feastol();
 
-   if(fixedStaysLower || fixedStaysUpper)
+   if(staysLower || staysUpper)
    {
-      if(!EQ(m_oldlower, m_oldupper, this->feastol()))
-         cStatus[active_idx] = fixedStaysLower ? SPxSolverBase<R>::ON_LOWER : SPxSolverBase<R>::ON_UPPER;
+      if(!oldFixed)
+         cStatus[active_idx] = staysLower ? SPxSolverBase<R>::ON_LOWER : SPxSolverBase<R>::ON_UPPER;
 
       cStatus[m_j] = SPxSolverBase<R>::BASIC;
    }
-   else if((cStatus[active_idx] == SPxSolverBase<R>::ON_UPPER && !atOldUpper)
-           || (cStatus[active_idx] == SPxSolverBase<R>::ON_LOWER && !atOldLower)
-           || cStatus[active_idx] == SPxSolverBase<R>::FIXED)
+   else if(kStat == SPxSolverBase<R>::ON_UPPER || kStat == SPxSolverBase<R>::ON_LOWER
+           || kStat == SPxSolverBase<R>::FIXED)
    {
       // x_k becomes basic and x_j nonbasic: the dual of row i has to make the reduced cost of x_k vanish instead
       // of the one of x_j (r'_k = r_k + aggr_coef * r_j with aggr_coef = -aik / aij)
